@@ -81,7 +81,6 @@ Section Spec.
                     (forall e, r = inr e -> e <> ECancelled) -> Q r d m') ->
       wp x (k_procirq K dm clear) Q d m;
     (* what the prepared states rely on is covered by what the prepare operations program *)
-    ok_nocancel : forall dm clear, no_cancel (k_procirq K dm clear);
     cover_tx : forall m, valid_all m (it_init ++ it_mod ++ it_power ++ it_pkt ++ it_chan ++ it_payload ++ it_irq) -> forallb (valid m) (need (no_listen x) StTx) = true;
     cover_rx : forall m, valid_all m (it_init ++ it_mod ++ it_pkt ++ it_chan ++ it_irq) -> forallb (valid m) (need (no_listen x) StRx) = true;
     cover_cad : forall m, valid_all m (it_init ++ it_mod ++ it_chan ++ it_irq) -> valid_all m it_cad;
